@@ -8,7 +8,9 @@ CONSTANTS MaxDev,     \* number of deviations from the base shape
           EditOps,    \* edit names explored
           Dims,       \* dimensions of the shape that may deviate
           ImgFmts, ImgNames,   \* AddImage argument classes
-          IdPool, NamePool     \* pools of the library's free choices (SpecMC only)
+          IdPool, NamePool,    \* pools of the library's free choices (SpecMC only)
+          SlimDims, SlimOps,   \* shapes that deviate in a dimension of SlimDims are explored with the edits of SlimOps only
+          DimGroups            \* {} or a set of sets of dimensions: a shape deviates within one group only
 
 VARIABLES devs, phase, st, hist
 vars == <<devs, phase, st, hist>>
@@ -21,18 +23,23 @@ SimpleOps == {"AddParagraph", "AddHeading", "AddFormattedParagraph", "AddListIte
               "AddPageBreak", "Save", "SaveFile", "Reopen", "Render", "SetPageMargins", "AddTable", "SetTitle",
               "SetFootnoteConfig"}
 
-EditsOf(s) ==
-     {[op |-> n] : n \in EditOps \cap SimpleOps}
-  \cup (IF "AddImage" \in EditOps THEN {[op |-> "AddImage", fmt |-> f, fn |-> x] : f \in ImgFmts, x \in ImgNames} ELSE {})
-  \cup (IF "AddHeader" \in EditOps THEN {[op |-> "AddHeader", t |-> t] : t \in {"default", "first"}} ELSE {})
-  \cup (IF "AddFooter" \in EditOps THEN {[op |-> "AddFooter", t |-> t] : t \in {"default"}} ELSE {})
-  \cup (IF "RemoveParagraphAt" \in EditOps THEN {[op |-> "RemoveParagraphAt", i |-> i] : i \in -1..Len(s.paras)} ELSE {})
+\* plan restrictions (which behaviours are enumerated, never what is demanded of them)
+OpsFor(D) == IF \E d \in D : d.dim \in SlimDims THEN EditOps \cap SlimOps ELSE EditOps
+GroupOK(D) == DimGroups = {} \/ \E g \in DimGroups : \A d \in D : d.dim \in g
+
+EditsFor(s, Ops) ==
+     {[op |-> n] : n \in Ops \cap SimpleOps}
+  \cup (IF "AddImage" \in Ops THEN {[op |-> "AddImage", fmt |-> f, fn |-> x] : f \in ImgFmts, x \in ImgNames} ELSE {})
+  \cup (IF "AddHeader" \in Ops THEN {[op |-> "AddHeader", t |-> t] : t \in {"default", "first"}} ELSE {})
+  \cup (IF "AddFooter" \in Ops THEN {[op |-> "AddFooter", t |-> t] : t \in {"default"}} ELSE {})
+  \cup (IF "RemoveParagraphAt" \in Ops THEN {[op |-> "RemoveParagraphAt", i |-> i] : i \in -1..Len(s.paras)} ELSE {})
+EditsOf(s) == EditsFor(s, OpsFor(devs))
 
 Init == devs = {} /\ phase = "shape" /\ st = Closed /\ hist = <<>>
 
 AddDev == /\ phase = "shape" /\ Cardinality(devs) < MaxDev
           /\ \E d \in DevPool \ devs :
-               /\ ShapeOK(devs \cup {d})
+               /\ ShapeOK(devs \cup {d}) /\ GroupOK(devs \cup {d})
                /\ devs' = devs \cup {d}
           /\ UNCHANGED <<phase, st, hist>>
 
@@ -94,6 +101,28 @@ Inv_All ==
            <=> (\E r \in o.rels : r.src = DocRels /\ r.k = "styles" /\ r.id # "rId1"))
     /\ LET wp == W(st, oo, Lossy_DefaultPkgRels(now)) IN
          \A r \in o.rels : (r.src = PkgRels /\ ~(r.id = "rId1" /\ r.k = "main")) => \E w \in wp : w[2] = r.k
+    \* MIXED RUNS: losing the text of runs that hold more than one w:t / other run content is reported for
+    \* exactly those runs - as unread when the reader loses it, as lost only when the writer does
+    /\ LET wl == W(st, oo, Lossy_PureRunsOnly(o, now))
+           mt == ExpToks(st) \cap MixedToks(o.body)
+       IN /\ Of(wl, "text-lost") = {<<"text-lost", LabelOfTok(o.body, t)>> : t \in mt}
+          /\ Of(wl, "text-unread") = {<<"text-unread", LabelOfTok(o.body, t)>> : t \in mt}
+          /\ Of(W(st, oo, Lossy_WriterPureOnly(o, now)), "text-unread") = {}
+          /\ Of(W(st, oo, Lossy_WriterPureOnly(o, now)), "text-lost") = Of(wl, "text-lost")
+          /\ \A t \in mt : LabelOfTok(o.body, t) # "plain"
+    \* LOOK-ALIKE RELATIONSHIP TYPES: a reader that takes stylesWithEffects for the styles relationship
+    /\ LET wk == W(st, oo, Lossy_StylesLookalike(now))
+           fx == {r \in o.rels : r.src = DocRels /\ r.k = "stylesWithEffects"}
+           hasSty == \E r \in o.rels : r.src = DocRels /\ r.k = "styles"
+       IN IF fx = {} THEN wk = {}
+          ELSE IF hasSty THEN wk = {<<"rel-dropped", "stylesWithEffects">>}
+          ELSE wk = {<<"rel-type-changed", "stylesWithEffects">>, <<"rel-target-changed", "stylesWithEffects">>}
+    \* STYLES PART: it is claimed byte-for-byte exactly when it exists, every style the body uses is defined
+    \* in it and no edit extended it by design - whatever its spelling
+    /\ LET ws == W(st, oo, Lossy_StylesRewritten(now))
+           claimed == HasPart(o.parts, StylesPart) /\ StyleRefs(o.body) \subseteq o.styles.defs
+                      /\ ~(\E i \in 2..Len(hist) : hist[i].op = "AddHeading" /\ "Heading1" \notin o.styles.defs)
+       IN ws = IF claimed THEN {<<"part-changed", "styles">>} ELSE {}
     \* an image stored under a name that is already taken is a violation: freshness is necessary
     /\ \A p \in {q \in st.m.parts : q.k = "media" /\ q.cls # "new"} :
          LET m2 == [st.m EXCEPT !.parts = (st.m.parts \ {p}) \cup {[p EXCEPT !.h = "new"]}]
@@ -109,8 +138,30 @@ Inv_DetectParts ==
          LET lbl == LabelOfPart(o, p.n)
              dropped == [now EXCEPT !.parts = {x \in now.parts : x.n # p.n}]
              retyped == [now EXCEPT !.parts = {IF x.n = p.n THEN [x EXCEPT !.ct = "other"] ELSE x : x \in now.parts}]
+             changed == [now EXCEPT !.parts = {IF x.n = p.n THEN [x EXCEPT !.h = "other"] ELSE x : x \in now.parts}]
          IN /\ Viol_Parts(oo, o, st.regen, dropped) = {<<IF IsMedia(o, p.n) THEN "media-dropped" ELSE "part-dropped", lbl>>}
             /\ Viol_Parts(oo, o, st.regen, retyped) = {<<"content-type-changed", lbl>>}
+            /\ Viol_Parts(oo, o, st.regen, changed) = {<<IF IsMedia(o, p.n) THEN "media-overwritten" ELSE "part-changed", lbl>>}
+
+\* dropping, re-typing, re-targeting or internalising any claimed relationship is detected and named after its kind
+Inv_DetectRels ==
+  phase = "open" =>
+    LET o   == st.o
+        oo  == ObsOfModel(o, BodyToks(o.body))
+        now == ObsOfModel(st.m, ExpToks(st))
+        V(a) == Viol_Rels(oo, o, st.regen, st.xrels, a)
+        ObsRel(r) == [src |-> r.src, id |-> r.id, ty |-> r.ty, tg |-> r.tg, rt |-> r.rt, mode |-> r.mode, ix |-> 0]
+    IN \A r \in {x \in o.rels : Claimed(st, x)} :
+         LET T(t) == RelTag(r.src, t)
+             without == now.rels \ {ObsRel(r)}
+             dropped == [now EXCEPT !.rels = without]
+             retyped == [now EXCEPT !.rels = without \cup {[ObsRel(r) EXCEPT !.ty = "od/other"]}]
+             moved   == [now EXCEPT !.rels = without \cup {[ObsRel(r) EXCEPT !.tg = "elsewhere", !.rt = "elsewhere"]}]
+             renamed == [now EXCEPT !.rels = without \cup {[ObsRel(r) EXCEPT !.id = "rIdOther"]}]
+         IN /\ V(dropped) = {<<T("rel-dropped"), r.k>>}
+            /\ V(retyped) = {<<T("rel-type-changed"), r.k>>}
+            /\ V(moved) = {<<T("rel-target-changed"), r.k>>}
+            /\ V(renamed) = {<<T("rel-id-changed"), r.k>>}
 
 Inv_ShapeWellFormed ==
   phase = "open" =>
